@@ -20,10 +20,12 @@
 //	    the same for http/scenario: requests = def|def…  def = namehex;methodhex;urihex;headers;body;pp;assert
 //	    headers = - | khex=texthex,…   body = - | hex   assert=1: postprocessor assert/response body ["result":"ok"]
 //	    (the target answers "result":"bad" when the URI contains "nok": the step then fails after delivery)
+//	cfg <kindA> <kindB> <ninst> <mdA> <mdB>      (see cfg.go; in a subprocess)
 //	race <pool> <ninst> <nshots> <variant>
 //	    (run in a subprocess of the -race build) N instances of a pool kind under the real engine
 //	    against in-process targets; observation = clean | race:<functions> | fatal:<message>
-//	    pool = http | httpscen | grpc | grpcscen | ammo (recycling provider, variant 1 = discard_overflow
+//	    pool = http | httpscen | grpc | grpcscen | httplate (two http pools on HOST-NAME targets that start
+//	    listening only after the configuration was decoded: the DNS-caching dialer is in use) | ammo (recycling provider, variant 1 = discard_overflow
 //	    with a stalled first shot) ; variant: http/grpc 0|1 = shared client off/on;
 //	    scenarios 0 = [next] only, 1 = +[rand], 2 = +randString, 3 = +randInt and uuid
 package main
@@ -277,8 +279,12 @@ func raceSummary(stderr string) string {
 	return "race:" + strings.Join(ks, ";")
 }
 
-func runRaceSub(c string) string {
-	cmd := exec.Command(os.Args[0], "racecase", c)
+func runRaceSub(c string) string { return runSub("racecase", c) }
+
+// runSub runs one case in a subprocess of this binary (its own plugin registry, its own process-wide
+// caches; under the -race build its own detector report).
+func runSub(mode, c string) string {
+	cmd := exec.Command(os.Args[0], mode, c)
 	cmd.Env = append(os.Environ(), "GORACE=halt_on_error=0 exitcode=0")
 	var so, se bytes.Buffer
 	cmd.Stdout = &so
@@ -301,6 +307,12 @@ func runRaceSub(c string) string {
 		return s
 	}
 	out := strings.TrimSpace(so.String())
+	if mode == "cfgcase" {
+		if out == "" {
+			return "failed:" + vh.HexS(lastLine(se.String()))
+		}
+		return out
+	}
 	if strings.HasPrefix(out, "counts:") || strings.HasPrefix(out, "enginerr:") {
 		return out
 	}
@@ -338,11 +350,17 @@ func runCase(c string) (res string) {
 		return runAliasHTTP(f)
 	case "race":
 		return runRaceSub(c)
+	case "cfg":
+		return runSub("cfgcase", c)
 	}
 	return "unknown-case"
 }
 
 func main() {
+	if len(os.Args) >= 3 && os.Args[1] == "cfgcase" {
+		fmt.Println(runCfgCase(strings.Split(os.Args[2], " ")))
+		return
+	}
 	if len(os.Args) >= 3 && os.Args[1] == "racecase" {
 		fmt.Println(runRaceCase(strings.Split(os.Args[2], " ")))
 		return
